@@ -13,6 +13,9 @@ import (
 	"github.com/dtn7/dtn7-go/pkg/cla/tcpclv4/internal/msgs"
 )
 
+// maxSegmentSize is the largest segment payload created by an OutgoingTransfer, regardless of the peer's segment MRU.
+const maxSegmentSize uint64 = 1048576
+
 // OutgoingTransfer represents an outgoing Bundle Transfer for the TCPCLv4.
 type OutgoingTransfer struct {
 	Id uint64
@@ -59,6 +62,14 @@ func (t *OutgoingTransfer) NextSegment(mtu uint64) (dtm *msgs.DataTransmissionMe
 	if t.startFlag {
 		t.startFlag = false
 		segFlags |= msgs.SegmentStart
+	}
+
+	// The segment size is announced by the peer: never trust it for an allocation.
+	if mtu == 0 {
+		err = fmt.Errorf("segment MTU must not be zero")
+		return
+	} else if mtu > maxSegmentSize {
+		mtu = maxSegmentSize
 	}
 
 	var buf = make([]byte, mtu)
